@@ -36,7 +36,7 @@ spec fn ps_inv(s: crate::htlc_manager::PaymentState, g: G) -> bool {
 //@ requires#held_total_fits_u64
 //    input validity assumption (listed): the sum of simultaneously held HTLC amounts is < 2^64 msat
       sum_held(old(g).held) + req.htlc.amount_msat as int <= u64::MAX as int
-//@ ensures#inv [C03,C06,C07,C04,C14,C11,C09]
+//@ ensures#inv [C03,C06,C07,C04,C14,C11,C09,C19]
       ps_inv(*final(self), *final(g))
 //@ ensures#late_htlc_gets_the_recorded_resolution [C07,C06,C01,C02]
       old(self).resolution is Some ==> (sender.fate() == old(self).resolution && *final(self) == *old(self) && *final(g) == *old(g))
